@@ -22,9 +22,13 @@ pub struct Ctx {
     pub threads: usize,
 }
 
+/// Properties whose thorough bound runs in a few seconds: their quick tier runs the same bound
+/// (the evidence says so: coverage.quick_tier_runs_thorough_bound).
+pub const QUICK_RUNS_THOROUGH_BOUND: [&str; 6] = ["C03", "C04", "C06", "C15", "C19", "C20"];
+
 impl Ctx {
     pub fn quick(&self) -> bool {
-        self.tier == Tier::Quick
+        self.tier == Tier::Quick && !QUICK_RUNS_THOROUGH_BOUND.contains(&self.id.as_str())
     }
     pub fn elapsed(&self) -> f64 {
         self.start.elapsed().as_secs_f64()
@@ -244,6 +248,9 @@ pub fn finish(ctx: &Ctx, mut out: Outcome) -> i32 {
         "known_findings_matched".into(),
         json!(known_hit.values().sum::<usize>()),
     );
+    if ctx.tier == Tier::Quick && QUICK_RUNS_THOROUGH_BOUND.contains(&ctx.id.as_str()) {
+        out.coverage.insert("quick_tier_runs_thorough_bound".into(), json!(true));
+    }
     let ev = json!({
         "property_id": ctx.id,
         "tier": if ctx.tier == Tier::Quick {"quick"} else {"thorough"},
